@@ -124,7 +124,7 @@ def run_isolated(name, tier="quick", ids=None):
     /verif stay usable meanwhile); the copy and the worktree are kept for the next call, `seeded.py clean` removes them"""
     d, meta = load(name)
     ids = ids or [meta["property"]]
-    w = "/tmp/seedw"
+    w = os.environ.get("SEEDW", "/tmp/seedw")   # several workers: one directory each
     repo, verif = os.path.join(w, "repo"), os.path.join(w, "verif")
     os.makedirs(w, exist_ok=True)
     if not os.path.exists(repo):
